@@ -86,8 +86,10 @@ def go_src(t, variadic=False):
     k = t[0]
     if k == "basic":
         return t[1]
+    if k == "tparam":
+        return t[1]
     if k == "named":
-        return t[2] if t[1] == "" else "%s.%s" % (PKGS[t[1]][1], t[2])
+        return t[2] if t[1] in ("", "src") else "%s.%s" % (PKGS[t[1]][1], t[2])
     if k == "ptr":
         return "*" + go_src(t[1])
     if k == "slice":
@@ -107,6 +109,8 @@ def coq_ty(t):
     k = t[0]
     if k == "basic":
         return "(TBasic %s)" % coq_bytes(t[1])
+    if k == "tparam":
+        return "(TParam %s)" % coq_bytes(t[1])
     if k == "named":
         return "(TNamed %s %s)" % (coq_bytes(MOD + "/" + t[1] if t[1] else ""), coq_bytes(t[2]))
     if k == "ptr":
@@ -127,7 +131,7 @@ def mentions(t):
     k = t[0]
     if k == "named":
         return {t[1]} if t[1] else set()
-    if k == "basic":
+    if k in ("basic", "tparam"):
         return set()
     if k == "func":
         out = set()
@@ -142,6 +146,12 @@ def mentions(t):
 
 
 # ------------------------------------------------------------------ cases
+# package-level types of the source package itself; generic interfaces declare type parameters of
+# the same names (shadowing them) and of the names of replacement targets
+SRC_TYPES = "type Key string\n\ntype Val struct{ N int }\n\ntype R struct{ Z int }\n\n"
+SRC_KEYS = [("src", "Key"), ("src", "Val"), ("src", "R")]
+TPARAM_SETS = [[("Key", "comparable"), ("V", "any")], [("T", "any"), ("R", "any")], [("Val", "any"), ("Key", "comparable")],
+               [("K", "comparable"), ("S", "any")]]
 QUAL_NAMES = ["rt", "ty", "rt0", "ty0"]     # package names / qualifiers of the original and replacement packages
 
 
@@ -205,6 +215,41 @@ def gen_case(rng):
             tgt = rng.choice([t for t in TARGETS if t != key])
             put(cfg, slot, key, tgt)
             placed += 1
+    if rng.random() < 0.35:
+        # a generic interface whose type parameters shadow package-level types of src that are keys,
+        # next to a plain use of those types (which IS replaced)
+        tps = rng.choice(TPARAM_SETS)
+        names = [n for n, _ in tps]
+        comp = [n for n, c in tps if c == "comparable"]
+
+        def tp_type():
+            r = rng.random()
+            n = rng.choice(names)
+            if r < 0.5:
+                return ("tparam", n)
+            if r < 0.65:
+                return ("slice", ("tparam", n))
+            if r < 0.75:
+                return ("ptr", ("tparam", n))
+            if r < 0.85 and comp:
+                return ("map", ("tparam", rng.choice(comp)), ("tparam", n))
+            if r < 0.93:
+                return ("func", [("tparam", n)], [("tparam", rng.choice(names))], False)
+            return gen_type(rng)
+        gm = []
+        for j in range(rng.choice([1, 2])):
+            gm.append({"name": "M%d" % j, "params": [("a%d" % k, tp_type()) for k in range(rng.randint(1, 3))], "variadic": False,
+                       "results": [("", tp_type()) for _ in range(rng.randint(0, 2))] + ([("", ("basic", "bool"))] if rng.random() < 0.5 else [])})
+        gname = "G%d" % len(ifaces)
+        ifaces.append({"name": gname, "tparams": tps, "methods": gm})
+        plain = rng.choice(ifaces[:-1])
+        plain["methods"][0]["params"].append(("q%d" % len(plain["methods"][0]["params"]), named(*rng.choice(SRC_KEYS))))
+        plain["methods"][0]["variadic"] = False
+        if rng.random() < 0.6:
+            cfg["ifaces"].setdefault(gname, {"config": None, "configs": [None] * rng.choice([0, 1])})
+        slots2 = [("file",), ("pkg",)] + [("iface", n) for n in cfg["ifaces"]]
+        for key in rng.sample(SRC_KEYS, rng.randint(1, 3)):
+            put(cfg, rng.choice(slots2), key, rng.choice([t for t in TARGETS if t[0] != "ty" or True]))
     case = {"ifaces": ifaces, "cfg": cfg, "others": {}, "recursive": False}
     if rng.random() < 0.3:
         # a sub-package listed explicitly and an unrelated sibling; the same source package `ty` at
@@ -307,16 +352,19 @@ def source_file(case, rel="src"):
         for m in it["methods"]:
             for _, t in m["params"] + m["results"]:
                 used |= mentions(t)
+    used.discard("src")
     imports = "".join('\t%s "%s/%s"\n' % (PKGS[p][1], MOD, p) for p in sorted(used))
     body = ""
     for it in case["ifaces"]:
-        body += "type %s interface {\n" % it["name"]
+        tps = it.get("tparams") or []
+        body += "type %s%s interface {\n" % (it["name"], "[%s]" % ", ".join("%s %s" % tp for tp in tps) if tps else "")
         for m in it["methods"]:
             ps = ", ".join("%s %s" % (n, go_src(t, m["variadic"] and i == len(m["params"]) - 1)) for i, (n, t) in enumerate(m["params"]))
             rs = [go_src(t) for _, t in m["results"]]
             body += "\t%s(%s)%s\n" % (m["name"], ps, "" if not rs else (" " + rs[0] if len(rs) == 1 and not rs[0].startswith("func") else " (%s)" % ", ".join(rs)))
         body += "}\n\n"
-    return "package %s\n\n" % rel.split("/")[-1] + ("import (\n%s)\n\n" % imports if imports else "") + body
+    local = SRC_TYPES if rel == "src" else ""
+    return "package %s\n\n" % rel.split("/")[-1] + ("import (\n%s)\n\n" % imports if imports else "") + local + body
 
 
 def make_fixture(ctx):
@@ -490,7 +538,7 @@ def case_term(case, obs):
     ob = coq_list("(%s, %s)" % (coq_bytes(i["name"]), coq_list("(%s, %s, %s)" % (
         coq_bytes(n), coq_list(coq_bytes(x) for x in ps), coq_list(coq_bytes(x) for x in rs)) for n, ps, rs in i["methods"])) for i in A["ifaces"])
     return "{| k_names := %s; k_dst := %s; k_inpkg := false; k_ifaces := %s; k_obs := %s; k_imports := %s |}" % (
-        coq_list("(%s, %s)" % (coq_bytes(MOD + "/" + p), coq_bytes(v[0])) for p, v in PKGS.items()),
+        coq_list(["(%s, %s)" % (coq_bytes(MOD + "/" + p), coq_bytes(v[0])) for p, v in PKGS.items()] + ["(%s, %s)" % (coq_bytes(MOD + "/src"), coq_bytes("src"))]),
         coq_bytes(MOD + "/outp/src"), coq_list(ifs), ob,
         coq_list("(%s, %s)" % (coq_bytes(p), coq_bytes(q)) for p, q in A["imports"]))
 
@@ -515,7 +563,7 @@ def dump_case(case):
 
 def load_case(d):
     def tt(t):
-        return tuple(tt(x) if isinstance(x, list) and x and isinstance(x[0], str) and x[0] in ("basic", "named", "ptr", "slice", "array", "map", "chan", "func")
+        return tuple(tt(x) if isinstance(x, list) and x and isinstance(x[0], str) and x[0] in ("basic", "named", "tparam", "ptr", "slice", "array", "map", "chan", "func")
                      else ([tt(y) for y in x] if isinstance(x, list) else x) for x in t)
 
     def rt(c):
@@ -527,7 +575,10 @@ def load_case(d):
             for m in it["methods"]:
                 ms.append({"name": m["name"], "variadic": m["variadic"], "params": [(n, tt(t)) for n, t in m["params"]],
                            "results": [(n, tt(t)) for n, t in m["results"]]})
-            out.append({"name": it["name"], "methods": ms})
+            e = {"name": it["name"], "methods": ms}
+            if it.get("tparams"):
+                e["tparams"] = [tuple(x) for x in it["tparams"]]
+            out.append(e)
         return out
     ifaces = load_ifaces(d["ifaces"])
     cfg = d["cfg"]
@@ -652,6 +703,18 @@ def hand_cases():
     user = {"name": "O0", "methods": [{"name": "M0", "params": [("a0", K), ("a1", K2)], "variadic": False, "results": [("", K2)]}]}
     out.append({"ifaces": one([("a0", K), ("a1", K2)], [("", K2)]), "cfg": cfg, "recursive": True,
                 "others": {"src/sub": [dict(user, name="S0")], "oth": [user]}})
+    # type parameters that shadow package-level types which are keys: `Get(k Key) (V, bool)` keeps its
+    # type parameter, `Put(k Key)` of the plain interface is replaced
+    cfg = {"file": None, "pkg": None, "ifaces": {}}
+    put(cfg, ("pkg",), ("src", "Key"), ("rt", "R"))
+    put(cfg, ("file",), ("src", "R"), ("alt/rt", "S"))
+    out.append({"cfg": cfg, "ifaces": [
+        {"name": "I0", "methods": [{"name": "Put", "params": [("k", named("src", "Key")), ("r", named("src", "R"))], "variadic": False, "results": []}]},
+        {"name": "Cache", "tparams": [("Key", "comparable"), ("V", "any")],
+         "methods": [{"name": "Get", "params": [("k", ("tparam", "Key"))], "variadic": False, "results": [("", ("tparam", "V")), ("", ("basic", "bool"))]}]},
+        {"name": "Conv", "tparams": [("T", "any"), ("R", "any")],
+         "methods": [{"name": "Do", "params": [("in", ("tparam", "T")), ("f", ("func", [("tparam", "T")], [("tparam", "R")], False))], "variadic": False,
+                      "results": [("", ("slice", ("tparam", "R")))]}]}]})
     # a parameter spelled like the replacement package's qualifier, in the first method that brings the
     # replacement package in, and in a later one; also like the original package's
     cfg = {"file": None, "pkg": None, "ifaces": {}}
